@@ -24,12 +24,13 @@ ASSUMPTIONS = ["fault -> code table follows the registrations in hed/errors/erro
 MIN_MONITOR_EVALS = {"total-no-exception": 3000, "valid-no-error": 300, "fault-has-code": 1500}
 FAULTS = ["category-value-not-string", "hed-entry-number", "hed-entry-list", "hed-entry-null", "hed-string-no-pound",
           "two-pounds-in-value", "pound-in-category", "empty-map", "empty-string", "column-named-HED",
-          "nested-HED-key", "na-category-key", "unbalanced-brace", "nested-brace", "unknown-ref", "self-ref", "chained-ref"]
+          "nested-HED-key", "na-category-key", "unbalanced-brace", "nested-brace", "unknown-ref", "self-ref", "chained-ref",
+          "value-entry-blank"]
 CODE = {"category-value-not-string": "wrongHedDataType", "hed-entry-number": "sidecarUnknownColumn",
         "hed-entry-list": "sidecarUnknownColumn", "hed-entry-null": "sidecarUnknownColumn",
         "hed-string-no-pound": "PLACEHOLDER_INVALID", "two-pounds-in-value": "PLACEHOLDER_INVALID",
         "pound-in-category": "PLACEHOLDER_INVALID", "empty-map": "blankValueString", "empty-string": "blankValueString",
-        "column-named-HED": "SIDECAR_INVALID", "nested-HED-key": "SIDECAR_INVALID", "na-category-key": "SIDECAR_INVALID",
+        "value-entry-blank": "PLACEHOLDER_INVALID", "column-named-HED": "SIDECAR_INVALID", "nested-HED-key": "SIDECAR_INVALID", "na-category-key": "SIDECAR_INVALID",
         "unbalanced-brace": "SIDECAR_BRACES_INVALID", "nested-brace": "SIDECAR_BRACES_INVALID",
         "unknown-ref": "SIDECAR_BRACES_INVALID", "self-ref": "SIDECAR_BRACES_INVALID", "chained-ref": "SIDECAR_BRACES_INVALID"}
 VERSIONS = ["8.3.0", "8.2.0"]
@@ -163,7 +164,11 @@ def inject(doc, kinds, fault, rng):
         c = rng.choice(cats)
         d[c]["HED"][rng.choice(list(d[c]["HED"]))] = ""
     elif fault == "column-named-HED":
-        d["HED"] = {"HED": {"a": "Red"}} if rng.random() < 0.5 else {"Description": "x"}
+        d["HED"] = rng.choice([{"HED": {"a": "Red"}}, {"Description": "x"}, {}, "Red", ["Red"], 3, True, None])
+    elif fault == "value-entry-blank":
+        if not vals:
+            return None
+        d[rng.choice(vals)]["HED"] = rng.choice(["", " ", "   "])
     elif fault == "nested-HED-key":
         name = rng.choice(igns) if igns else "extra_col"
         d[name] = {"Levels": {"a": {"HED": "Red"}}} if rng.random() < 0.5 else {"Details": [{"HED": "Red"}]}
